@@ -30,6 +30,37 @@ status_t TemplatingMessageIOGateway :: GetBodySize(const uint8 * headerBuf, uint
    else return B_BAD_DATA;
 }
 
+// Returns true iff (msg) has exactly the layout that (templateMsg) describes:  the same flattenable fields in the same order, with the same
+// type-codes and item-counts, and (recursively) the same for their sub-Messages.  Only a Message like that can be sent as payload-only data
+// to be reconstructed from (templateMsg).  (A template-ID is just a hash of the layout, so two different layouts can have the same template-ID)
+static bool DoesMessageMatchTemplate(const Message & msg, const Message & templateMsg)
+{
+   MessageFieldNameIterator tIter = templateMsg.GetFieldNameIterator();
+   for (MessageFieldNameIterator mIter = msg.GetFieldNameIterator(); mIter.HasData(); mIter++)
+   {
+      const String & fn = mIter.GetFieldName();
+
+      uint32 mType, mCount;
+      if (msg.GetInfo(fn, &mType, &mCount).IsError()) return false;
+      if ((mType == B_POINTER_TYPE)||(mType == B_TAG_TYPE)) continue;  // non-flattenable fields are never part of a template
+
+      uint32 tType, tCount;
+      if ((tIter.HasData() == false)||(tIter.GetFieldName() != fn)||(templateMsg.GetInfo(fn, &tType, &tCount).IsError())||(tType != mType)||(tCount != mCount)) return false;
+
+      if (mType == B_MESSAGE_TYPE)
+      {
+         for (uint32 i=0; i<mCount; i++)
+         {
+            ConstMessageRef mSub, tSub;
+            if ((msg.FindMessage(fn, i, mSub).IsError())||(templateMsg.FindMessage(fn, i, tSub).IsError())||(DoesMessageMatchTemplate(*mSub(), *tSub()) == false)) return false;
+         }
+      }
+
+      tIter++;
+   }
+   return (tIter.HasData() == false);
+}
+
 ByteBufferRef TemplatingMessageIOGateway :: FlattenHeaderAndMessage(const MessageRef & msgRef) const
 {
    if (msgRef() == NULL) return ByteBufferRef();
@@ -40,9 +71,16 @@ ByteBufferRef TemplatingMessageIOGateway :: FlattenHeaderAndMessage(const Messag
    const bool isMessageTrivial = (msgRef()->GetNumNames() == 0);  // what-code only Messages can be sent in just 4 bytes
    if ((isMessageTrivial == false)&&(IsOkayToTemplatizeMessage(*msgRef())))
    {
-      templateID     = msgRef()->TemplateHashCode64();
-      templateMsgRef = _outgoingTemplates.GetAndMoveToFront(templateID);
-      if (templateMsgRef == NULL)
+      templateID = msgRef()->TemplateHashCode64();
+
+      const MessageRef * cachedTemplateMsgRef = _outgoingTemplates.Get(templateID);
+      if ((cachedTemplateMsgRef)&&(DoesMessageMatchTemplate(*msgRef(), *cachedTemplateMsgRef->GetItemPointer()) == false))
+      {
+         // A different Message-layout with the same template-ID is already in the cache (on both sides of the connection).  We can neither
+         // send this Message as a payload for that template nor register a second template under the same ID, so we'll send this Message
+         // the old-fashioned way, without touching anybody's cache.
+      }
+      else if ((templateMsgRef = _outgoingTemplates.GetAndMoveToFront(templateID)) == NULL)
       {
          // demand-allocate a template-Message for us to cache and use in the future
          // Note that I'm deliberately leaving (templateMsgRef) set to NULL here, though
